@@ -192,7 +192,11 @@ class ControlFlowTransformer(converter.Base):
 
     # Variables that are modified inside the scope, and depend on values outside
     # it.
-    input_only = basic_scope_vars & live_in - live_out
+    # Nonlocal and global variables remain observable after the function
+    # returns, so they are outputs even when this function does not read them
+    # again.
+    input_only = (basic_scope_vars & live_in - live_out
+                  - fn_scope.nonlocals - fn_scope.globals)
 
     # Place the outputs first, then sort lexicographically.
     scope_vars = sorted(scope_vars, key=lambda v: (v in input_only, v))
